@@ -1,7 +1,7 @@
 """C13 - subchannels open once, close once, and honour the subprotocol contract."""
 from ..env import World
 from ..sched import Scheduler
-from ..dilation_work import DilatedPair, ScriptDriver, stream_check, HalfRecProto
+from ..dilation_work import DilatedPair, ScriptDriver, stream_check, HalfRecProto, RecFactory
 from ..mailbox_work import trace_digest
 from ..monitors import MON, state_of
 
@@ -84,6 +84,7 @@ def run_case(spec):
     drv.actions = actions
     drv.drain_actions = lambda: actions(True)
     sch = Scheduler(world, drv, strategy=rng.choice(["random", "pct", "appfirst", "netfirst"]), chunking="whole")
+    viol_refuse = []
     bad_name = {"tried": 0, "outcome": None}
     if spec["cuts"] and spec["seed"] % 3 == 0:
         # an application bug: a subprotocol name that is a str but cannot be encoded (a lone surrogate, as
@@ -264,6 +265,51 @@ def run_case(spec):
         drv.half, drv.stop = saved_half, True
         sch.drain(30.0, 3000, until=lambda: False)
         all_protos = drv.protos("A") + drv.protos("B")
+    refusals = 0
+    if not spec["expected"] and dp.both_connected() and spec["seed"] % 2 == 0:
+        # a listening factory that refuses a connection the documented way (buildProtocol() returns None): the opener
+        # must be told (connectionLost), and subchannels opened afterwards must work
+        class Refusing(RecFactory):
+            def buildProtocol(self, addr):
+                self.refused = getattr(self, "refused", 0) + 1
+                return None
+        fr = Refusing(dp, "A.refuser")
+        dp.dw["A"].listener_for("refuser").listen(fr)
+        r1 = drv.open("B", "refuser")
+        sch.drain(60.0, 4000, until=lambda: r1["proto"] is not None and "lost" in [e[0] for e in r1["proto"].events])
+        refusals = getattr(fr, "refused", 0)
+        saved_stop, drv.stop = drv.stop, False
+        drv.listen("A", "after-refusal")
+        r2 = drv.open("B", "after-refusal")
+        sch.drain(30.0, 3000, until=lambda: r2["proto"] is not None)
+        if r2["proto"] is not None:
+            drv.write(r2["proto"], b"after the refusal")
+        sch.drain(60.0, 4000, until=lambda: bool(drv.factories["A"]["after-refusal"].built) and any(e[0] == "data" for e in drv.factories["A"]["after-refusal"].built[0][1].events))
+        drv.stop = saved_stop
+        drv.opens.remove(r1)
+        # ... and the mirror case: the opener's own factory refuses after the OPEN has gone out
+        got3 = []
+        try:
+            dp.dw["B"].connector_for("after-refusal").connect(Refusing(dp, "B.refuser")).addBoth(got3.append)
+        except Exception as e:
+            got3.append(e)
+        nb = len(drv.factories["A"]["after-refusal"].built)
+        sch.drain(60.0, 4000, until=lambda: bool(got3) and len(drv.factories["A"]["after-refusal"].built) > nb and
+                  any(e[0] in ("lost", "read-lost") for e in drv.factories["A"]["after-refusal"].built[-1][1].events))
+        b3 = drv.factories["A"]["after-refusal"].built[nb:]
+        if not got3 or not (isinstance(got3[0], Exception) or hasattr(got3[0], "type")):
+            viol.append({"key": "C13/connect-with-refusing-factory-does-not-fail", "msg": repr(got3)[:120], "witness": {"spec": spec}})
+        elif b3 and not any(e[0] in ("lost", "read-lost") for e in b3[0][1].events):
+            viol.append({"key": "C13/refused-by-factory-but-held-open", "msg": "the opener's buildProtocol() returned None after its OPEN had gone out; the acceptor's protocol has seen %s" % [e[0] for e in b3[0][1].events],
+                         "witness": {"spec": spec}})
+        if refusals and (r1["proto"] is None or not any(e[0] in ("lost", "read-lost") for e in r1["proto"].events)):
+            viol.append({"key": "C13/refused-by-factory-but-held-open", "msg": "the listener's buildProtocol() returned None; 60 virtual s later the opener has seen %s" % (
+                [e[0] for e in r1["proto"].events] if r1["proto"] is not None else r1["failure"]), "witness": {"spec": spec}})
+        b2 = drv.factories["A"]["after-refusal"].built
+        if r2["proto"] is None or not b2 or not any(e[0] == "data" for e in b2[0][1].events):
+            viol.append({"key": "C13/subchannels-stall-after-a-refused-open", "msg": "a subchannel opened after the refused one: connect %s, acceptor built %d, data %s (managers %s/%s)" % (
+                "ok" if r2["proto"] is not None else r2["failure"], len(b2), [e[0] for e in b2[0][1].events] if b2 else None, dp.mstate("A"), dp.mstate("B")), "witness": {"spec": spec}})
+        all_protos = drv.protos("A") + drv.protos("B")
     # half-closeable pairs that are still fully open: one side now closes its writing half, the other keeps its own open
     for p_ in all_protos:
         if isinstance(p_, HalfRecProto) and getattr(p_, "transport", None) is not None and state_of(p_.transport) == "open_half" and rng.random() < 0.6:
@@ -297,7 +343,7 @@ def run_case(spec):
     nontrivial = trace_digest(sch) if (nsub and closes) else None
     benign = {"CloseForMissingSubchannelError", "DataForMissingSubchannelError"}
     return {"violations": viol, "nontrivial": nontrivial,
-            "counters": {"subchannels": nsub, "closes": closes, "writes_after_close": writes_after_close, "writes_right_after_close": len(early_wac), "unencodable_names_tried": bad_name["tried"], "subchannels_open_at_wormhole_close": still_open, "half_closed_subchannels_at_wormhole_close": half_open_at_close_before, "calls_from_inside_protocol_callbacks": drv.reactions_done, "errors_escaping_connectionLost": drv.escaped, "false_factories": drv.falsy_factories, "undeclared_opens": undeclared,
+            "counters": {"subchannels": nsub, "closes": closes, "writes_after_close": writes_after_close, "writes_right_after_close": len(early_wac), "unencodable_names_tried": bad_name["tried"], "opens_refused_by_factory": refusals, "subchannels_open_at_wormhole_close": still_open, "half_closed_subchannels_at_wormhole_close": half_open_at_close_before, "calls_from_inside_protocol_callbacks": drv.reactions_done, "errors_escaping_connectionLost": drv.escaped, "false_factories": drv.falsy_factories, "undeclared_opens": undeclared,
                          "late_listens": late_listens, "half_protocols": sum(isinstance(p, HalfRecProto) for p in all_protos),
                          "opens": len(drv.opens), "notrans_seen": len(MON.notrans)},
             "sets": {"write_after_close_errors": sorted({e for (_, e, _) in wac_errors if e} | {e[1] for e in early_wac if e[1]}),
